@@ -38,7 +38,7 @@ class Lin:
             d = self.canon.defs.get(n["lid"])
             if d is not None and d[0] == "let" and not d[3] and n["lid"] not in self.canon.assigned \
                     and not d[2] and depth < 8 and self.canon._simple(d[1]) and \
-                    (self.canon.inline_state or not self.canon._mutated_between(d[1], d[1]["sp"][1], n)):
+                    (self.canon.inline_state or self.canon.snapshot_free(n["lid"], d)):
                 return self.of(d[1], depth + 1)
             return self.atom(n)
         if k == "Cast":
@@ -137,9 +137,11 @@ def fact_from_cond(lin, node, positive=True):
     n = hq.peel(node)
     if n.get("k") == "Unary" and n["op"] == "!":
         return fact_from_cond(lin, n["e"], not positive)
-    if n.get("k") == "MethodCall" and n["name"] == "is_empty" and not positive:
-        # !x.is_empty()  =>  len(x) - 1 >= 0   (atom named like Canon prints len)
-        return []
+    if n.get("k") == "MethodCall" and n["name"] == "is_empty" and not n["args"]:
+        ln = lin.of({"k": "MethodCall", "name": "len", "args": [], "recv": n["recv"], "ty": "usize"})
+        if positive:
+            return [ln, sub(({}, 0), ln)]          # len == 0
+        return [sub(ln, ({}, 1))]                   # len >= 1
     if n.get("k") != "Binary":
         return []
     op = n["op"]
